@@ -195,6 +195,22 @@ def check_C01(ctx):
         cat = b"(" + b" + ".join(b'"s%d"' % i for i in range(n)) + b")"
         srcs.append(b"def b { verbose = false\n banner = verbose and " + cat + b' or "none"\n print banner }\n')
         srcs.append(b"def b { verbose = 1\n banner = verbose and " + cat + b' or "none"\n print banner }\n')
+    # operands of every dynamic type taken from FIELDS (incl. nil-valued ones, also shadowing an outer field) and variables
+    fvals = [b"nil", b"0", b"0.0", b'""', b"false", b"7", b"2.5", b'"ab"', b"true", b"z"]
+    for v in fvals:
+        for op in [b"print x", b"print x == nil", b"print not x", b"print x or 5", b"print x and 5", b'print "s" + x', b"y = x\n print y"]:
+            srcs.append(b"var z\ndef b { x = " + v + b"\n " + op + b" }\n")
+            srcs.append(b"var z\ndef o { x = 7\n def i { x = " + v + b"\n " + op + b" }\n print x }\n")
+    # mixed int/float comparisons with equal integer parts; division by the int zero with every numeric dividend
+    for a in [b"2", b"3", b"-2", b"7/2", b"9007199254740993"]:
+        for b2 in [b"2.5", b"2.0", b"3.5", b"-2.5", b"9007199254740992.0"]:
+            for op in [b"==", b"!=", b"<", b">", b"<=", b">="]:
+                srcs.append(b"print " + a + b" " + op + b" " + b2 + b"\nprint " + b2 + b" " + op + b" " + a + b"\n")
+    for dvd in [b"1", b"1.0", b"0.0", b"-2.5", b"10/4.0", b"0"]:
+        for dvs in [b"0", b"0x0", b"3-3", b"0.0", b"z0"]:
+            srcs.append(b"var z0 = 0\nprint " + dvd + b" / " + dvs + b"\n")
+    for lit in [b"017", b"0644", b"08", b"019", b"00", b"0", b"0x1F", b"0X1f", b"1_000", b"1e3", b"1E3", b".5", b"5.", b"0.5e-3", b"0b101", b"0o17"]:
+        srcs.append(b"print " + lit + b"\ndef b { mode = " + lit + b" }\n")
     cases = [dict(id="e%d" % i, src=s) for i, s in enumerate(srcs)]
     rs, missing, err = interp.run(ctx, cases)
     decide(ctx, rs, missing, err, {"out", "blocks", "binding", "err"}, "C01_eval", "expr", errclass_only=True)
